@@ -149,6 +149,15 @@ def _resolve_module_name(ref: str, module: str | None) -> str | None:
     #   (Only if the text leads with a dotted name: `list[decimal.Decimal]` does not.)
     module = ref.split(".", maxsplit=1)[0]
     if module != ref and module.isidentifier():
+        # Unless the leading name is a name of the calling module itself, as `typing` is in
+        #   `typing.Optional[Node]` where `typing` is imported: then the text is an
+        #   expression of that module, exactly as a string annotation written there.
+        frame = inspect.currentframe()
+        while frame:
+            modname = frame.f_globals.get("__name__")
+            if modname and not _isinternal(modname):
+                return modname if module in frame.f_globals else module
+            frame = frame.f_back
         return module
     # Harder path, find the nearest calling module which binds the name, if possible.
     #   The name is evaluated in that module's namespace, so it is the module of the
